@@ -28,12 +28,14 @@ between threads.  One model step is one such operation:
 * `write t f`        — the action creates something in its directory.
 * `closeChild t e1`  — `sharedBuildDirectory.Close`: `d.BuildDirectory.Close()`.
 * `removeAll t fault`— `d.parentDirectory.RemoveAll(d.childDirectoryName)`.
-* `finish t relErr`  — `parentDirectory.Close()` = `cleanBuildDirectory.Close`:
-  root `Close` (no-op) and `IdleInvoker.Release`, whose error is `relErr`; the
-  call (`GetBuildDirectory` or `Close`) returns.
+* `release t`       — `parentDirectory.Close()` = `cleanBuildDirectory.Close`:
+  root `Close` (no-op), then `IdleInvoker.Release` is entered (the thread stops
+  being a user; `Model/Idle.lean` step `releaseEnter`).
+* `finish t relErr`  — `Release` returned (error `relErr`, possibly after a
+  cleaner call) and the call (`GetBuildDirectory` or `Close`) returns.
 * `clean ok`         — the build-directory cleaner (`cleaner.NewDirectoryCleaner`
   in bb_worker: remove all children of the root) ran to completion.  It is
-  enabled only when no thread is between `begin` and `finish` (`active = 0`);
+  enabled only when no thread is between `begin` and `release` (`active = 0`);
   that this is the only time it runs is theorem `C12.exclusion` about
   `Model/Idle.lean`.
 
@@ -45,14 +47,19 @@ namespace BbRe.BuildDirs
 abbrev Name := String
 abbrev Root := List (Name × List Nat)
 
-def hasName (r : Root) (n : Name) : Bool := r.any (fun e => e.1 == n)
-def lookup (r : Root) (n : Name) : Option (List Nat) :=
-  match r with
-  | [] => none
-  | e :: rest => if e.1 == n then some e.2 else lookup rest n
-def eraseName (r : Root) (n : Name) : Root := r.filter (fun e => !(e.1 == n))
-def addFile (r : Root) (n : Name) (f : Nat) : Root :=
-  r.map (fun e => if e.1 == n then (e.1, f :: e.2) else e)
+def hasName : Root → Name → Bool
+  | [], _ => false
+  | e :: rest, n => if e.1 = n then true else hasName rest n
+def lookup : Root → Name → Option (List Nat)
+  | [], _ => none
+  | e :: rest, n => if e.1 = n then some e.2 else lookup rest n
+/-- `RemoveAll` / `Remove` of a child: every entry with that name goes. -/
+def eraseName : Root → Name → Root
+  | [], _ => []
+  | e :: rest, n => if e.1 = n then eraseName rest n else e :: eraseName rest n
+def addFile : Root → Name → Nat → Root
+  | [], _, _ => []
+  | e :: rest, n, f => if e.1 = n then (e.1, f :: e.2) :: addFile rest n f else e :: addFile rest n f
 
 /-- Result codes of `GetBuildDirectory` / `Close` (never message strings). -/
 inductive Res
@@ -73,6 +80,8 @@ inductive DPC
   /-- about to call `parentDirectory.Close()`; `get` = inside GetBuildDirectory
   (result fixed: the error), otherwise inside Close with pending result `r`. -/
   | finishing (get : Bool) (r : Res)
+  /-- inside `IdleInvoker.Release` (no longer a user), about to return. -/
+  | releasing (get : Bool) (r : Res)
 deriving DecidableEq, Repr, Inhabited
 
 /-- The thread has created `n` in the root and not yet removed it / given up. -/
@@ -86,7 +95,7 @@ def DPC.owns : DPC → Name → Prop
 structure State where
   root   : Root
   next   : Nat          -- nextParallelActionID
-  active : Nat          -- threads between `begin` and `finish` (= IdleInvoker users)
+  active : Nat          -- threads between `begin` and `release` (= IdleInvoker users)
   pc     : Nat → DPC
   issued : List Name    -- ghost: counter names issued so far, newest first
 
@@ -104,6 +113,7 @@ inductive Op
   | write (t : Nat) (f : Nat)
   | closeChild (t : Nat) (e1 : Bool)
   | removeAll (t : Nat) (fault : Bool)
+  | release (t : Nat)
   | finish (t : Nat) (relErr : Bool)
   | clean (ok : Bool)
 deriving DecidableEq, Repr
@@ -155,9 +165,13 @@ def step (s : State) : Op → Option State
       else some { (s.setPc t (.finishing false (if e1 then .childErr else .ok))) with
                   root := eraseName s.root n }
     | _ => none
+  | .release t =>
+    match s.pc t with
+    | .finishing g r => some { (s.setPc t (.releasing g r)) with active := s.active - 1 }
+    | _ => none
   | .finish t _ =>
     match s.pc t with
-    | .finishing _ _ => some { (s.setPc t .idle) with active := s.active - 1 }
+    | .releasing _ _ => some (s.setPc t .idle)
     | _ => none
   | .clean ok =>
     if s.active = 0 then (if ok then some { s with root := [] } else some s) else none
